@@ -486,6 +486,8 @@ func hashCase(c *Case) uint64 {
 
 // worker bookkeeping shared by the serial engines.
 type runner struct {
+	envRead  bool
+	envNames []string
 	cfg  Config
 	st   *evid.Stats
 	rc   *refCache
@@ -559,6 +561,14 @@ func (rn *runner) afterWorld(c *Case) {
 func (rn *runner) gate(c *Case) bool {
 	seq := rn.seq
 	rn.seq++
+	if !rn.envRead {
+		rn.envRead, rn.envNames = true, evid.EnvNames()
+	}
+	if c.World.Env == nil && len(rn.envNames) > 0 {
+		if c.World.Env = evid.DrawEnv(rn.envNames, rng.Mix(rn.cfg.Seed, uint64(seq)*31+uint64(rn.cfg.W))); c.World.Env != nil && rn.st != nil {
+			rn.st.Fault("environment-variable-set")
+		}
+	}
 	if rn.cfg.EmitOut != "" {
 		if seq == rn.cfg.EmitAt {
 			cc := cloneCase(c)
